@@ -254,3 +254,17 @@ Theorem C06_filter_pops_any_order : forall (shape : list nat) (g phi : list R) (
           (snd (fst (fst r)), snd r)).
 Proof. exact filter_pops_any_order. Qed.
 Print Assumptions C06_filter_pops_any_order.
+
+(** ** refusal guards (round 11).  The constructors 3 -> 4 and 4 -> 5 hand their proportion parameters to the helper
+    unchanged: they refuse exactly the vectors summing above 1; the 2 -> 3 constructors refuse nothing.  Together with
+    C06_rejection_characterised this fixes, for every pulse function and constructor, the exact set of refused
+    proportion vectors; the guard stream of harness/props/c06.py compares the real code's ValueError with it. *)
+Theorem C06_constructor_rejection_characterised : forall p, In p cons_table -> forall ps : list R, length ps = (pd_dim p - 1)%nat ->
+  (rejected (desc_args p ps) = true <-> (3 <= pd_dim p)%nat /\ 1 < nsum ps).
+Proof. exact cons_rejection_characterised. Qed.
+Print Assumptions C06_constructor_rejection_characterised.
+
+(** the guard-only comparison used for correspondence cases whose values are not compared (it evaluates [rejected] on
+    the helper arguments and no density) returns what the full comparison returns *)
+Theorem C06_guard_check_is_the_model : forall tol c, PhiManipCheck.mcheck_guard tol c = PhiManipCheck.mcheck tol c.
+Proof. exact mcheck_guard_is_mcheck. Qed.
